@@ -72,6 +72,29 @@ func checkMapContract(n datamodel.Node, neverKeys []string) (pairs int, err erro
 	if int64(pairs) != n.Length() {
 		return pairs, fmt.Errorf("iteration yielded %d pairs, Length() = %d", pairs, n.Length())
 	}
+	// a finished iterator stays finished while a second walk of the same node is under way, and the second walk is whole
+	if pairs > 1 {
+		it2 := n.MapIterator()
+		if _, _, err := it2.Next(); err != nil {
+			return pairs, fmt.Errorf("second walk, first pair: %v", err)
+		}
+		if !it.Done() {
+			return pairs, fmt.Errorf("the finished iterator of the first walk reports Done() = false once a second walk has started")
+		}
+		if k, v, err := it.Next(); err == nil && (k != nil || v != nil) {
+			return pairs, fmt.Errorf("the finished iterator of the first walk yielded (%v, %v) once a second walk had started", k, v)
+		}
+		got := 1
+		for !it2.Done() && got <= budget {
+			if _, _, err := it2.Next(); err != nil {
+				return pairs, fmt.Errorf("second walk, pair #%d: %v", got+1, err)
+			}
+			got++
+		}
+		if got != pairs {
+			return pairs, fmt.Errorf("a second walk, during which the first walk's finished iterator was touched, yielded %d pairs of %d", got, pairs)
+		}
+	}
 	// count-driven: Next() called Length() times without asking Done() in between yields pairs every time and is then done
 	{
 		cit := n.MapIterator()
